@@ -1,3 +1,4 @@
+pub mod c01;
 pub mod c02;
 pub mod c10;
 pub mod c11;
@@ -15,6 +16,7 @@ pub mod c30;
 pub mod c31;
 pub mod c35;
 pub mod c37;
+pub mod c41;
 pub mod c42;
 pub mod c49;
 pub mod dirchecks;
@@ -23,6 +25,7 @@ pub mod tokchecks;
 
 pub fn dispatch(id: &str, args: &[String]) -> ! {
     match id {
+        "C01" => c01::run(args),
         "C02" => c02::run(args),
         "C03" => dirchecks::run("C03", args),
         "C08" => replchecks::run("C08", args),
@@ -32,6 +35,7 @@ pub fn dispatch(id: &str, args: &[String]) -> ! {
         "C12" => c12::run(args),
         "C14" => c14::run(args),
         "C49" => c49::run(args),
+        "C41" => c41::run(args),
         "C42" => c42::run(args),
         "C17" => dirchecks::run("C17", args),
         "C19" => replchecks::run("C19", args),
